@@ -424,5 +424,20 @@ def rule_degrees(ctx, R):
 
 def rule_values(ctx, R):
     ctx.rule(R, "operand discipline of value propagation: a constant is attached to an expression node only from known operand constants; no value for calls, arrays, accesses, updates")
-    analyse(ctx, R, "value", REQUIRED_VALUES)
+    # when the value rules of every expression kind were decided by evaluation (c06.eval_value_rules: what is stored for
+    # each combination of known / unknown operand facts), the shape analysis of the same function is not needed
+    decided = False
+    try:
+        import core as _core
+        import c06 as _c06
+
+        sub = _core.Ctx(ctx.pid, ctx.tier)
+        decided = _c06.eval_value_rules(sub, R)
+        if decided:
+            for o in sub.obs:
+                ctx._add(R, o.key.split("/", 1)[1] if "/" in o.key else o.key, o.ok, o.detail, o.site)
+    except Exception:
+        decided = False
+    if not decided:
+        analyse(ctx, R, "value", REQUIRED_VALUES)
     helper_all_some(ctx, R, "value")
